@@ -14,11 +14,47 @@ def rstring(s):
     return mkstr(s, 'string')
 
 
-def mk_struct(prog, name, **vals):
+_INT_W = {'bool': 1, 'u8': 8, 'i8': 8, 'u16': 16, 'i16': 16, 'u32': 32, 'i32': 32, 'u64': 64, 'i64': 64, 'usize': 64, 'isize': 64}
+
+
+def arbitrary_of_type(ip, ty, label):
+    """A value of a plain-data type the harness has no opinion about: integers and booleans are fresh symbols, Option<T> is None or Some
+    (solver's choice), tuples are built fieldwise.  None when the type is anything else."""
+    ty = ty.strip()
+    if ty in _INT_W:
+        return ip.fresh(_INT_W[ty], label)
+    m = re.match(r'^(?:std::option::|core::option::)?Option<(.*)>$', ty)
+    if m:
+        inner_ty = m.group(1)
+        if arbitrary_of_type(ip, inner_ty, label + '_probe') is None:
+            return None
+        if ip.choose(2, 'auto_' + label) == 0:
+            return none(ip)
+        return some(ip, arbitrary_of_type(ip, inner_ty, label))
+    if ty.startswith('(') and ty.endswith(')'):
+        parts = [x.strip() for x in ty[1:-1].split(',') if x.strip()]
+        vs = [arbitrary_of_type(ip, x, '%s_%d' % (label, i)) for i, x in enumerate(parts)]
+        if any(v is None for v in vs):
+            return None
+        return Agg(vs, 'tuple')
+    return None
+
+
+def mk_struct(prog, name, _ip=None, **vals):
     names = prog.src.structs.get(name)
     if names is None:
         raise Inconclusive("unknown struct " + name)
     missing = [n for n in names if n not in vals]
+    if missing and _ip is not None:
+        # a field this harness does not know (the tree under test added it): plain data gets an arbitrary value of its type -- every state
+        # the new field could be in, reachable or not (a report that rests on an unreachable one does not replay natively)
+        types = dict(zip(names, prog.src.struct_types.get(name) or []))
+        for n in list(missing):
+            v = arbitrary_of_type(_ip, types.get(n, ''), '%s_%s' % (name, n))
+            if v is not None:
+                vals[n] = v
+                missing.remove(n)
+                _ip.env.setdefault('assumptions', set()).add('field %s.%s is unknown to the harness: given an arbitrary value of type %s' % (name, n, types.get(n)))
     if missing:
         raise Inconclusive("struct %s: no value for fields %r (source changed?)" % (name, missing))
     return Agg([vals[n] for n in names], name, list(names))
@@ -65,7 +101,7 @@ def mk_server(ip, prog, stream, **over):
         registering_prepared_statement=Seq([], 'vecdeque'),
     )
     vals.update(over)
-    return mk_struct(prog, 'Server', **vals)
+    return mk_struct(prog, 'Server', _ip=ip, **vals)
 
 
 def install_stats_noops(ip):
